@@ -14,11 +14,17 @@
     one instance of a pair never affect the other, for every interleaved history, and the unpickled
     copy behaves exactly like the instance it was pickled from (`pickle_state`,
     `unpickled_immutable_protected`; since the repo fix 4ede29b).
-  False of the code today, with kernel-checked counterexamples that the harness replays on the real
-  code as known findings: `a == b → hash(a) == hash(b)` (`eq_hash_statement_false`, six
-  `eq_hash_counterexample_*`), hash of a deep / unpickled copy with a re-ordered set
-  (`deepcopy_hash_counterexample`, `pickle_hash_counterexample`).  `eq_hash_partial` proves the implication on the region
-  that excludes exactly those spellings.
+  `a == b → hash(a) == hash(b)`: since /repo c4803f1 `Structure.__hash__` hashes a canonical form of
+  what `__eq__` compares (Sem/CanonHash.lean) and the implication is proved IN FULL (`eq_canon_hash`,
+  `deepcopy_canon_hash`, `pickle_canon_hash`).  It was false of the `str(self)`-based hash before
+  that commit: the kernel-checked counterexamples (`eq_hash_statement_false`, the
+  `eq_hash_counterexample_*`, `deepcopy_hash_counterexample`, `pickle_hash_counterexample`) stay as
+  statements about the printed form `str(x)` (`hashKey`), which still tells those spellings apart;
+  `eq_hash_partial` says which instances print alike.  The harness reports the former findings
+  again should they return.
+  Sharing (which objects a copy has in common with the original) is proved on the heap model
+  Sem/AliasC11.lean: `deepcopy_disjoint`, `deepcopy_heap_independent(_back)`,
+  `copy_shares_first_level`, `copy_tables_ok`.
 -/
 import TypedpyModel.Lemmas.EqLemmas
 import TypedpyModel.Lemmas.HashLemmas
@@ -138,9 +144,10 @@ theorem instEq_trans (d : EqCtx) (a b c : Inst) (hb : okInst d b = true)
     namesEq_trans _ _ _ hn1 hn2⟩
 
 
-/-! ### `a == b → hash(a) == hash(b)` is false of the code today -/
+/-! ### `a == b → str(a) == str(b)` is false: what made `a == b → hash(a) == hash(b)` false of the `str`-based hash (before c4803f1) -/
 
-/-- the full-strength statement for a rendering `R` of Python's `str()` -/
+/-- the full-strength statement for the `str`-based hash (`hash(x) = hash(str(x))`, the code before c4803f1),
+    for a rendering `R` of Python's `str()` -/
 def eq_hash_statement (R : Render) : Prop :=
   ∀ (d : EqCtx) (a b : Inst), instEq d a b = true → hashKey R a = hashKey R b
 
@@ -191,7 +198,8 @@ theorem eq_hash_counterexample_set_frozenset :
         == hashKey { exR with other := fun _ => "frozenset()" } { cls := "A", attrs := [("s", .set true [])] }) = false := by
   decide
 
-/-- the full statement fails for the example rendering -/
+/-- the full statement fails for the example rendering: former findings `eq-not-hash:*`, fixed by c4803f1
+    (`eq_canon_hash` is the statement about the repaired hash) -/
 theorem eq_hash_statement_false : ¬ eq_hash_statement exR := by
   intro h
   have h1 := h {} { cls := "A", attrs := [("x", .int 1)] } { cls := "A", attrs := [("x", .float ⟨1, 1⟩)] }
@@ -710,6 +718,32 @@ theorem eq_canon_hash_example :
     ∧ okInstS exD { cls := "C", attrs := [("b", .int 0), ("a", .int 1)] } = true
     ∧ (canonHashI exH {} { cls := "A", attrs := [("x", .str "a")] }
         == canonHashI exH {} { cls := "A", attrs := [("x", .str "ab")] }) = false := by
+  decide
+
+/-- **C11 (deepcopy / pickle keep the repaired hash, for EVERY iteration order of rebuilt sets)**:
+    the findings `deepcopy-hash-differs:set-order` / `pickle-hash-differs:set-order` cannot occur with
+    the canonical hash -/
+theorem deepcopy_canon_hash (H : HashO) (hH : H.Respects) (S : SetOrder) (hS : MemPreserving S)
+    (c : ClassOpts) (d : EqCtx) (x : Inst) (hnd : noDrop c x = true ∨ c.immutable = true)
+    (okx : okInstS d x = true) (oky : okInstS d (deepcopyI c S x) = true) :
+    canonHashI H d (deepcopyI c S x) = canonHashI H d x :=
+  (eq_canon_hash H hH d x _ okx oky (deepcopy_eq S hS c d x hnd)).symm
+
+theorem pickle_canon_hash (H : HashO) (hH : H.Respects) (S : SetOrder) (hS : MemPreserving S)
+    (d : EqCtx) (x : Inst) (okx : okInstS d x = true) (oky : okInstS d (pickleI S x) = true) :
+    canonHashI H d (pickleI S x) = canonHashI H d x :=
+  (eq_canon_hash H hH d x _ okx oky (pickle_eq S hS d x)).symm
+
+/-- the former counterexamples `deepcopy_hash_counterexample` / `pickle_hash_counterexample`: the
+    re-ordered set prints differently but hashes alike under the repaired hash -/
+theorem deepcopy_canon_hash_example :
+    (canonHashI exH {} { cls := "A", attrs := [("s", .set false [.str "a", .int 3])] }
+      == canonHashI exH {} (deepcopyI { name := "A", required := [] } List.reverse
+            { cls := "A", attrs := [("s", .set false [.str "a", .int 3])] })) = true
+    ∧ (hashKey exR { cls := "A", attrs := [("s", .set false [.str "a", .int 3])] }
+        == hashKey exR (pickleI List.reverse { cls := "A", attrs := [("s", .set false [.str "a", .int 3])] })) = false
+    ∧ (canonHashI exH {} { cls := "A", attrs := [("s", .set false [.str "a", .int 3])] }
+        == canonHashI exH {} (pickleI List.reverse { cls := "A", attrs := [("s", .set false [.str "a", .int 3])] })) = true := by
   decide
 
 /-! ### sharing: `copy.copy`, `copy.deepcopy`, pickle on the heap model (Sem/AliasC11.lean)
